@@ -14,6 +14,26 @@ from . import nondet
 from .funcs import *  # noqa: F401,F403
 from .funcs import all, any, sum, min, max, round, Token  # noqa: F401,A004
 
+# ---- concrete fast path: wrap array methods and module functions (see cells.fast)
+import inspect as _inspect
+import types as _types
+import sys as _sys
+_array = _sys.modules[__name__ + '.array']
+from .cells import fast as _fast
+
+for _name in ('__getitem__', '__setitem__', 'copy', 'astype', 'tolist', 'reshape', 'flatten', 'ravel', 'transpose', 'all', 'any',
+              'sum', 'min', 'max', 'prod', 'cumsum', 'argmin', 'argmax', 'nonzero', 'argsort', 'sort', 'repeat', '__invert__',
+              '__neg__', '__abs__', '__pos__', 'item', 'fill', '__contains__', '_inplace'):
+    setattr(ndarray, _name, _fast(getattr(ndarray, _name)))
+_array._binop = _fast(_array._binop)
+_funcs._binop = _array._binop
+for _name, _obj in list(vars(_funcs).items()):
+    if (isinstance(_obj, _types.FunctionType) and not _name.startswith('_') and _obj.__module__ == _funcs.__name__
+            and not _inspect.isgeneratorfunction(_obj)):
+        _w = _fast(_obj)
+        setattr(_funcs, _name, _w)
+        globals()[_name] = _w
+
 nan = NAN
 NaN = NAN
 inf = _np.inf
